@@ -97,14 +97,17 @@ def validate_args(func):
                 bound.arguments[pname] = _validate(
                     sig.parameters[pname].annotation, value, pname)
             except xlerrors.ExcelError as err:
-                return err
+                # (An error value does not keep the stack it was raised in:
+                # its frames refer to arrays holding the error itself, a
+                # cycle the garbage collector cannot see through numpy.)
+                return err.with_traceback(None)
         # 2. Run the function to compute the result.
         try:
             res = func(*bound.args, **bound.kwargs)
         except xlerrors.ExcelError as err:
             # Never crash on Excel errors as we want to store them as the cell
             # value.
-            return err
+            return err.with_traceback(None)
         # 3. Convert the result to an Excel type.
         return _validate(sig.return_annotation, res, 'return')
 
